@@ -53,6 +53,11 @@ Step(e) ==
     CASE e.ev = "reset" -> m' = e.m /\ start' = -1 /\ lastOut' = -1 /\ bad' = bad
       [] e.ev = "bframe" /\ e.midload >= 0 -> MidLoad(e) /\ UNCHANGED <<m, lastOut>>
       [] e.ev = "bframe" /\ e.midload < 0 -> BFrame(e) /\ UNCHANGED <<m, lastOut>>
+      \* a frame whose picture the host did not look at (the first of two frames emulated by one call): its writes decide
+      \* the colour the next frame starts with
+      [] e.ev = "bskip" ->
+            /\ start' = IF e.writes = <<>> THEN start ELSE e.writes[Len(e.writes)][2] % 8
+            /\ UNCHANGED <<m, lastOut, bad>>
       [] e.ev = "szxreport" ->
             /\ IF e.at_once = e.border /\ e.later = e.border /\ {e.painted[i] : i \in DOMAIN e.painted} = {e.border} THEN bad' = bad
                ELSE Report("border", [rows |-> {}, writes |-> <<>>, start |-> e.fe, reported |-> <<e.at_once, e.later>>, want |-> e.border, sample |-> e.painted])
